@@ -194,22 +194,25 @@ def obligations(tier: str) -> List[dict]:
                         'need_marks': ['new-top'] if ops == (1, 1) else []})
     else:
         for m in ('default', 'amr', 'custom'):
+            gp(m, 1, 1, 'full', 'full', 300)
+            gp(m, 2, 1, 'full', 'full', 900)
             for s0 in (0, 1):
-                for t0 in (0, 1, 2):
-                    gp(m, 2, 2, 'min', 'full', 1500, e0_s=s0, e0_t=t0)
-            gp(m, 2, 2, 'full', 'extras', 3000, e0_s=0, e0_t=1)
-            gp(m, 2, 2, 'full', 'extras', 3000, e0_s=1, e0_t=0)
+                gp(m, 2, 2, 'min', 'full', 1800, e0_s=s0)
+            gp(m, 2, 2, 'full', 'extras', 1800, e0_s=0, e0_t=1)
             for top in (0, 1, 2):
-                for s0 in (0, 1, 2):
-                    gp(m, 3, 2, 'min', 'extras', 1500, top=top, e0_s=s0)
+                gp(m, 3, 2, 'min', 'extras', 1800, top=top)
         for top in (0, 1, 2):
             for s0 in (0, 1, 2):
-                for t0 in (0, 1, 2):
-                    if s0 != t0:
-                        gp('default', 3, 2, 'min', 'full', 3000, top=top,
-                           e0_s=s0, e0_t=t0)
-                        gp('default', 3, 3, 'min', 'extras', 3000, top=top,
-                           e0_s=s0, e0_t=t0)
+                gp('default', 3, 2, 'min', 'full', 1800, top=top, e0_s=s0)
+                gp('default', 3, 3, 'min', 'extras', 1800, top=top, e0_s=s0)
+        for ops in [(0, 1), (1, 0), (1, 1), (1, 2)]:
+            for op2 in (0, 1):
+                obs.append({'name': f'E2 decoded graph (markers), every top, '
+                                    f'n=4 ops={ops + (op2,)}', 'kind': 'e2',
+                            'fn': 'h_decoded_newtop',
+                            'fixed': {'n': 4, 'i0_op': ops[0],
+                                      'i1_op': ops[1], 'i2_op': op2},
+                            'timeout': 1800, 'bound': '<= 4 branches'})
     return obs
 
 
